@@ -46,17 +46,21 @@ ExportSeqs ==
    "privpkginit" - declaration 1 is written into the package file of a private sub-package (sub/_2d/__init__.py; the directory name sorts
                   before "__init__.py") and is re-exported by its parent package, by the root or by the sibling package.
    "privpkgtop" - the same with the private package beside the re-exporting packages (<root>/_2d next to <root>/sub and <root>/other).
+   "bareimport" - both declarations live in private modules; the package files of their packages contain plain imports of top-level modules
+                  that are called like the declarations (import declone / import decltwo as x) and a plain dotted import of module 2
+                  (import <root>.sub._modb): none of these re-exports a declaration, both stay private.
    "pkgnamed"   - the package sub/deep is itself called like declaration 1 (reported as "deep"), which it re-exports from its private module
                   _moda; declaration 2 is written into the package file of that package.
    "genericattr" - class 1 is generic; its class attribute `content` and its constructor-assigned attribute `item` are typed by the type variable
                   (and `plain` by int): attributes are declarations like any other.
    "privreexp"  - like "distinct", but the sibling package (at = 3) is a private one (<root>/_other; reported as "other"): a public declaration
                   that only a private package re-exports is still emitted once, in its module's stub or in that package's. *)
-Variants == {"privpkgtop", "privpkginit", "pkgnamed", "samenameboth", "genericattr", "privreexp", "distinct", "samename", "suffix", "samemodule", "initdecl", "sharedbase", "suffixalias", "stdlibname", "exccls", "pkgmodreexp", "privtwin", "privtwindeep", "newtype"}
+Variants == {"bareimport", "privpkgtop", "privpkginit", "pkgnamed", "samenameboth", "genericattr", "privreexp", "distinct", "samename", "suffix", "samemodule", "initdecl", "sharedbase", "suffixalias", "stdlibname", "exccls", "pkgmodreexp", "privtwin", "privtwindeep", "newtype"}
 Universe == { [kind |-> k, exports |-> e, variant |-> "distinct"] : k \in Kinds, e \in ExportSeqs }
              \cup { [kind |-> k, exports |-> << Exp(a, 1, x) >>, variant |-> v] : k \in Kinds, a \in {0, 1, 2}, x \in {"", "AliasA"}, v \in {"samename", "suffix"} }
              \cup { [kind |-> k, exports |-> << Exp(a, 1, "") >>, variant |-> "samemodule"] : k \in Kinds, a \in {0, 1, 3} }
              \cup { [kind |-> k, exports |-> << >>, variant |-> "initdecl"] : k \in Kinds }
+             \cup { [kind |-> k, exports |-> << >>, variant |-> "bareimport"] : k \in Kinds }
              \cup { [kind |-> k, exports |-> << Exp(a, 1, x) >>, variant |-> "privpkgtop"] : k \in Kinds, a \in {0, 1, 3}, x \in {"", "AliasA"} }
              \cup { [kind |-> k, exports |-> << Exp(a, 1, x) >>, variant |-> "privpkginit"] : k \in Kinds, a \in {0, 1, 3}, x \in {"", "AliasA"} }
              \cup { [kind |-> k, exports |-> << Exp(2, 1, "") >>, variant |-> "pkgnamed"] : k \in Kinds }
@@ -82,6 +86,7 @@ ExposedNames(s, at, t) ==
   { BoundName(s.exports[j]) : j \in { j \in 1..Len(s.exports) : s.exports[j].at = at /\ s.exports[j].tgt = t
                                        /\ \A m \in (j + 1)..Len(s.exports) : ~(s.exports[m].at = at /\ BoundName(s.exports[m]) = BoundName(s.exports[j])) } }
 PublicDecl(s, t) ==
+  IF s.variant = "bareimport" THEN FALSE ELSE
   IF s.variant \in {"privtwin", "privtwindeep"} THEN t = 1 ELSE
   IF s.variant \in {"distinct", "samemodule", "initdecl", "sharedbase", "suffixalias", "stdlibname", "exccls", "pkgmodreexp", "newtype", "privreexp", "genericattr", "samenameboth", "pkgnamed", "privpkginit", "privpkgtop"} THEN TRUE
   ELSE t = 1 /\ \E a \in Ats : Exposes(s, a, 1)       \* private modules: public only through the re-export, and only the re-exported declaration
